@@ -758,6 +758,19 @@ func runC19(rc *RunCtx) {
 			}
 			e.FullQueryCheck(nil, []uint64{1, 2, 3})
 		}
+		// another byte spelling of a registered remote token (the bare 20-byte address of a padded word, the word padded
+		// further, cut, or with its padding on the right) is another key: requests naming it leave the registered pair alone
+		for _, d := range []uint32{0, 1} {
+			if _, ex := e.M.Pairs[pairKey{d, string(Token(5))}]; !ex {
+				op(&ct.MsgLinkTokenPair{From: e.M.TC, RemoteDomain: d, RemoteToken: Token(5), LocalToken: "uusdc"}, "pair-add")
+			}
+			w := Token(5)
+			for _, alt := range [][]byte{w[12:], append(make([]byte, 12), w...), w[1:], append(append([]byte(nil), w[12:]...), make([]byte, 12)...), append(append([]byte(nil), w...), 0)} {
+				op(&ct.MsgLinkTokenPair{From: e.M.TC, RemoteDomain: d, RemoteToken: alt, LocalToken: "ueure"}, "pair-add-other-spelling-of-a-registered-token")
+				op(&ct.MsgUnlinkTokenPair{From: e.M.TC, RemoteDomain: d, RemoteToken: alt, LocalToken: "uusdc"}, "pair-remove-other-spelling-of-a-registered-token")
+			}
+			e.FullQueryCheck(nil, []uint64{1, 2, 3})
+		}
 		for i := 0; i < steps; i++ {
 			switch r.Intn(11) {
 			case 0, 1:
